@@ -90,6 +90,8 @@ def b_float(E, fv, st, node, prog):
 # ------------------------------------------------------------------ contract DSL
 def d_implies(E, fv, st, node, prog):
     a = fv.to_bool(fv.ev(node.args[0], st, False))
+    if z3.is_false(z3.simplify(a)):
+        return SBool(True)
     saved = list(st.guards)
     st.guards.append(a)
     try:
@@ -214,6 +216,11 @@ def d_at(E, fv, st, node, prog):
 
 def d_ite(E, fv, st, node, prog):
     c = fv.to_bool(fv.ev(node.args[0], st, False))
+    cs_ = z3.simplify(c)
+    if z3.is_true(cs_):
+        return fv.ev(node.args[1], st, False)
+    if z3.is_false(cs_):
+        return fv.ev(node.args[2], st, False)
     saved = list(st.guards)
     st.guards.append(c)
     a = fv.ev(node.args[1], st, False)
@@ -272,6 +279,37 @@ def d_val(E, fv, st, node, prog):
     return v
 
 
+def d_ones_if_none(E, fv, st, node, prog):
+    """an optional count vector: the array itself, or the constant-ones vector when None"""
+    (v,) = _args(fv, st, node, False, 1)
+    if isinstance(v, SNone):
+        return SArrVal("i8", [z3.IntVal(0)], {"v": z3.K(I, z3.IntVal(1))})
+    return v
+
+
+def d_arr2(E, fv, st, node, prog):
+    """arr2(lambda h, j: e): the 2-D integer array value with elements e (fixed bound names so that
+    equal definitions give identical terms)"""
+    lam = node.args[0]
+    names = [a.arg for a in lam.args.args]
+    consts = [z3.Int("arr!%s" % n) for n in names]
+    s = st.fork()
+    s.assumes = st.assumes
+    for n, c in zip(names, consts):
+        s.env[n] = SInt(c)
+    body = fv.as_int(fv.ev(lam.body, s, False)).e
+    t = body
+    for c in reversed(consts):
+        t = z3.Lambda([c], t)
+    return SArrVal("i8", [z3.IntVal(0)] * len(names), {"v": t})
+
+
+def d_xlog(E, fv, st, node, prog):
+    (v,) = _args(fv, st, node, False, 1)
+    f = fv.to_float(v)
+    return SFloat(LOG(f.v), z3.simplify(f.v == 0))
+
+
 def _uf1(name, F):
     def f(E, fv, st, node, prog):
         (v,) = _args(fv, st, node, False, 1)
@@ -328,7 +366,10 @@ BUILTINS = {
     "finite": d_finite,
     "real": d_real,
     "val": d_val,
-    "log": _uf1("log", LOG),
+    "log": d_xlog,
+    "ones_if_none": d_ones_if_none,
+    "arr2": d_arr2,
+    "arr1": d_arr2,
     "exp": _uf1("exp", EXP),
     "lgamma": _uf1("lgamma", LGAMMA),
 }
